@@ -15,11 +15,17 @@ read) pair is recorded; then
   * every read is a declared precedent of that cell, or a range all of whose
     cells lie inside a declared range of that cell (intersection operator);
   * dep_graph has the edge precedent -> dependant for every declared precedent,
-    member -> range for every member of a declared range, and every cell of a
+    member -> range for every member of a declared range (blank members
+    included: the input block has blank cells), and every cell of a
     computed read reaches the dependant through a declared range containing it;
+  * every cell read while a formula cell is evaluated — directly, through the
+    range nodes it reads, or through an unbounded range (A:A, B:C: at least the
+    cells of the input block in those columns) — is an ancestor of the formula
+    cell in dep_graph;
   * perturbing an input cell that is not an ancestor of a formula cell in
     dep_graph never changes that cell's value."""
 import logging
+import re
 
 from harness import wbgen
 from harness.common import enc_val, ensure_impl_on_path, known_predicate   # noqa: F401
@@ -153,7 +159,10 @@ def build_workbook(rng):
         for r in range(1, 4):
             for c in range(1, 4):
                 v = rng.choice([rng.randrange(1, 50), rng.randrange(1, 50), rng.randrange(1, 200) / 4])
-                ws.cell(r, c).value = v
+                if rng.random() < 0.12 and (r, c) != (3, 3):
+                    v = None        # a blank member of the written ranges (C3 keeps the used range 3 x 3)
+                else:
+                    ws.cell(r, c).value = v
                 inputs[f'{ws.title}!{COLS[c - 1]}{r}'] = v
     wb.defined_names['myrange'] = DefinedName('myrange', attr_text='Sheet1!$A$1:$B$2')
     wb.defined_names['mycell'] = DefinedName('mycell', attr_text='Sheet2!$B$2')
@@ -187,8 +196,14 @@ def build_workbook(rng):
     for i in range(1, n + 1):
         home = rng.choice(['Sheet1', 'Sheet1', 'Sheet2'])
         addr = f'{home}!E{i}'
-        k = rng.randrange(20)
-        if k == 0:
+        k = rng.randrange(22)
+        if k >= 20:
+            # unbounded ranges: whole columns of the input block (no formula lives in columns A-C)
+            col = rng.choice(['A:A', 'B:B', 'C:C', 'A:B', 'B:C', '$A:$A'])
+            sh = rng.choice(['', '', 'Sheet2!', 'Sheet1!'])
+            f = rng.choice([f'=SUM({sh}{col})', f'=MAX({sh}{col})+{cell()}', f'=COUNT({sh}{col})',
+                            f'=SUM({sh}{col},{rng_()})'])
+        elif k == 0:
             f = f'={cell()}+{cell()}*2'
         elif k == 1:
             f = f'=SUM({rng_()})'
@@ -241,6 +256,10 @@ def build_workbook(rng):
     return wb, inputs, forms
 
 
+def unbounded(formula):
+    return re.search(r'[A-C]:\$?[A-C]\b(?!\d)', formula) is not None
+
+
 def cells_of(AddressRange, addr):
     a = AddressRange(addr)
     if a.is_range:
@@ -252,33 +271,13 @@ def workbook_oracle(ctx):
     ensure_impl_on_path()
     logging.getLogger('pycel').setLevel(logging.CRITICAL)
     import networkx as nx
-    from pycel import ExcelCompiler
-    from pycel.excelformula import ExcelFormula
     from pycel.excelutil import ERROR_CODES, AddressRange
     rng = ctx.rng
     for wbi in range(ctx.n(250, 2500)):
         wb, inputs, forms = build_workbook(rng)
-        comp = ExcelCompiler(excel=wb)
-        trace, stack = [], []
-        orig_e, orig_r = comp._evaluate, comp._evaluate_range
-
-        def ev(addr):
-            trace.append((stack[-1] if stack else None, str(addr)))
-            return orig_e(addr)
-
-        def evr(addr):
-            trace.append((stack[-1] if stack else None, str(addr)))
-            return orig_r(addr)
-        ectx = ExcelFormula.build_eval_context(ev, evr, comp.log, plugins=comp._plugin_modules)
-
-        def _eval(cell, cse_array_address=None):
-            stack.append(cell.address.address)
-            try:
-                return ectx(cell.formula, cse_array_address=cse_array_address)
-            finally:
-                stack.pop()
-        assert comp._eval is None
-        comp._eval = _eval
+        # (reader, read) pairs: the reader is the formula cell being computed, or the range node / unbounded
+        # range reference being computed (its member reads)
+        comp, trace = traced_compiler(wb)
         base = {}
         for a in forms:
             try:
@@ -329,11 +328,41 @@ def workbook_oracle(ctx):
         for a in forms:
             node = comp.cell_map[a]
             anc[a] = {n.address.address for n in nx.ancestors(comp.dep_graph, node)}
+        # ---- 2b. every cell that the evaluation of a formula cell reads, directly or through the range nodes and
+        #          unbounded-range references it reads, is an ancestor of the formula cell
+        reads = {}
+        for dep, read in trace:
+            if read not in ERROR_CODES:
+                reads.setdefault(dep, set()).add(read)
+        for a in forms:
+            seen, todo = set(), [a]
+            while todo:
+                x = todo.pop()
+                nxt = set(reads.get(x, ()))
+                m = re.fullmatch(r'(.+)!\$?([A-C]):\$?([A-C])', x)
+                if m:
+                    # an unbounded range stands for its part inside the used range, whose value it takes without a
+                    # traced call: at least the cells of the input block (rows 1-3) of its columns are read
+                    nxt |= {f'{m.group(1)}!{c}{row}' for c in COLS[COLS.index(m.group(2)):COLS.index(m.group(3)) + 1]
+                            for row in (1, 2, 3)}
+                for r in nxt:
+                    if r not in seen:
+                        seen.add(r)
+                        todo.append(r)
+            for r in sorted(seen):
+                if ':' in r.split('!')[-1]:
+                    continue        # range nodes are the path, the cells are the claim
+                ctx.count(('reach', wbi, a, r), kind='reach:' + ('blank-cell' if inputs.get(r, 0) is None else 'cell')
+                          + (':unbounded' if unbounded(forms[a]) else ''))
+                if r not in anc[a]:
+                    ctx.violation(dict(call='reach', args=[forms[a], r], workbook=forms, blank=inputs.get(r, 0) is None),
+                                  "a cell read while the formula is evaluated (through the range nodes it reads) is "
+                                  "not an ancestor of the formula cell in dep_graph", impl=sorted(anc[a])[:40], expected=r)
         for x in rng.sample(sorted(inputs), ctx.n(6, 18)):
             if x not in comp.cell_map:
                 continue        # never built: nothing declared it
             old = inputs[x]
-            comp.set_value(x, old + 1000.5)
+            comp.set_value(x, (old or 0) + 1000.5)
             for a in forms:
                 if x in anc[a]:
                     continue
@@ -472,8 +501,8 @@ def run(ctx):
         "correspondence: PRNG formula trees of depth <= 6 rich in references (plain, $, lower case, sheet-qualified, "
         "ranges, nested intersection operators, ROW/COLUMN/INDEX/IF/SUM arguments) plus the C02 tree stream, rendered "
         "with random parentheses and white space; oracle: PRNG workbooks (2 sheets x 9 inputs, 8-21 formulas over 20 "
-        "reference-form templates incl. defined names, multi-colon, union, CSE members, chains through other formula "
-        "cells); a case is non-trivial when it is a distinct formula text, (workbook, cell, read) triple, edge or "
+        "reference-form templates incl. defined names, multi-colon, union, CSE members, whole-column ranges, chains "
+        "through other formula cells; about one input cell in eight is blank); a case is non-trivial when it is a distinct formula text, (workbook, cell, read) triple, edge or "
         "(workbook, perturbed input, formula cell) triple; graph traces: PRNG single-sheet DAG workbooks of "
         "harness/wbgen.py (5-11 cells, ranges, nested ranges) x 6-12 evaluate/set_value operations, the set of "
         "(reader, read) pairs of every evaluate compared with Model/ReadTrace.v and checked against the generated "
